@@ -21,6 +21,9 @@ import Mathlib.Analysis.Fourier.ZMod
 import Mathlib.Algebra.BigOperators.Group.List.Basic
 import Mathlib.Tactic.Ring
 import Mathlib.Tactic.FieldSimp
+import Mathlib.Analysis.SpecialFunctions.Trigonometric.Basic
+import Mathlib.Tactic.Linarith
+import Mathlib.Tactic.Positivity
 
 namespace AbacusVerif.Power
 open scoped BigOperators
@@ -198,6 +201,87 @@ noncomputable def binTable {β γ ι : Type} [DecidableEq β] [DecidableEq γ] (
   k_avg := fun b => B.wsum B.kmag b / (B.counts b : ℝ)
   power := fun b => B.wsum p b / (B.counts b : ℝ)
   poles := fun l g => B.wsumK (fun k => B.poleW l k * p k) g / (B.countsK g : ℝ)
+
+
+/-! ### the coded compensation window -/
+
+/-- `np.sinc` -/
+noncomputable def sincR (x : ℝ) : ℝ := if x = 0 then 1 else Real.sin (Real.pi * x) / (Real.pi * x)
+
+/-- one axis of `get_W_compensated` (independent of `Lbox`: `0.5 k/kN = m/n` with `m = fftfreq(n)·n`) -/
+noncomputable def codedW1 (n : ℕ) (paste : Paste) (interlaced : Bool) (i : ZMod n) : ℝ :=
+  let m : ℝ := ((fftfreqInt n i.val : ℤ) : ℝ)
+  if interlaced then
+    sincR (m / n) ^ (match paste with | .tsc => 3 | .cic => 2)
+  else
+    let s := Real.sin (Real.pi * m / n) ^ 2
+    match paste with
+    | .tsc => Real.sqrt (1 - s + 2 / 15 * s ^ 2)
+    | .cic => Real.sqrt (1 - 2 / 3 * s)
+
+noncomputable def codedW (n : ℕ) (paste : Paste) (interlaced : Bool) (k : Idx n) : ℝ :=
+  codedW1 n paste interlaced k.1 * codedW1 n paste interlaced k.2.1 * codedW1 n paste interlaced k.2.2
+
+theorem fftfreqInt_bounds {n i : ℕ} (hi : i < n) :
+    -(n : ℤ) ≤ 2 * fftfreqInt n i ∧ 2 * fftfreqInt n i ≤ n := by
+  unfold fftfreqInt
+  split_ifs with h <;> omega
+
+theorem sincR_pos {x : ℝ} (h1 : -(1/2) ≤ x) (h2 : x ≤ 1/2) : 0 < sincR x := by
+  unfold sincR
+  split_ifs with h0
+  · exact one_pos
+  · rcases lt_or_gt_of_ne h0 with hneg | hpos
+    · have hs : Real.sin (Real.pi * x) < 0 := by
+        have : Real.sin (Real.pi * x) = - Real.sin (Real.pi * (-x)) := by rw [mul_neg, Real.sin_neg, neg_neg]
+        rw [this]
+        have : 0 < Real.sin (Real.pi * (-x)) := by
+          apply Real.sin_pos_of_pos_of_lt_pi
+          · have := Real.pi_pos; nlinarith
+          · have := Real.pi_pos; nlinarith
+        linarith
+      have hd : Real.pi * x < 0 := by have := Real.pi_pos; nlinarith
+      exact div_pos_of_neg_of_neg hs hd
+    · have hs : 0 < Real.sin (Real.pi * x) := by
+        apply Real.sin_pos_of_pos_of_lt_pi
+        · have := Real.pi_pos; nlinarith
+        · have := Real.pi_pos; nlinarith
+      have hd : 0 < Real.pi * x := by have := Real.pi_pos; nlinarith
+      exact div_pos hs hd
+
+theorem codedW1_pos {n : ℕ} [NeZero n] (paste : Paste) (interlaced : Bool) (i : ZMod n) :
+    0 < codedW1 n paste interlaced i := by
+  have hn : (0 : ℝ) < n := by exact_mod_cast Nat.pos_of_ne_zero (NeZero.ne n)
+  have hb := fftfreqInt_bounds (ZMod.val_lt i)
+  have hb1 : -(n : ℝ) ≤ 2 * ((fftfreqInt n i.val : ℤ) : ℝ) := by exact_mod_cast hb.1
+  have hb2 : 2 * ((fftfreqInt n i.val : ℤ) : ℝ) ≤ n := by exact_mod_cast hb.2
+  unfold codedW1
+  cases interlaced
+  · simp only [Bool.false_eq_true, if_false]
+    have hs0 : 0 ≤ Real.sin (Real.pi * ((fftfreqInt n i.val : ℤ) : ℝ) / n) ^ 2 := sq_nonneg _
+    have hs1 : Real.sin (Real.pi * ((fftfreqInt n i.val : ℤ) : ℝ) / n) ^ 2 ≤ 1 := Real.sin_sq_le_one _
+    cases paste
+    · apply Real.sqrt_pos.2; nlinarith
+    · apply Real.sqrt_pos.2; nlinarith
+  · simp only [if_true]
+    apply pow_pos
+    apply sincR_pos
+    · rw [le_div_iff₀ hn]; linarith
+    · rw [div_le_iff₀ hn]; linarith
+
+
+/-! ### `calc_power`, end to end -/
+
+/-- `calc_power(pos, …, pos2)`: window (if `compensated`), Fourier field(s) with the coded interlacing
+phase, raw auto or cross power, binning -/
+noncomputable def calcPower [NeZero n] {Part β γ ι : Type} [DecidableEq β] [DecidableEq γ]
+    (D D' : List Part → Grid n) (paste : Paste) (compensated interlaced : Bool) (B : Binning n β γ ι)
+    (P : List Part) (P2 : Option (List Part)) : Table β γ ι :=
+  let W : Idx n → ℝ := if compensated then codedW n paste interlaced else fun _ => 1
+  let F := fourierField D D' interlaced (codedPhase n) W P
+  match P2 with
+  | none => binTable B (autoPower F)
+  | some Q => binTable B (crossPower F (fourierField D D' interlaced (codedPhase n) W Q))
 
 /-! ### helper lemmas -/
 
